@@ -13,7 +13,9 @@ From Coq Require Import String.
 From Coq Require Import List NArith Bool Arith.
 From Coq Require Import Init.Byte.
 From FFS Require Import Base.Res Base.Bytes Abi.Types AbiType.Syntax AbiType.Spec AbiType.Model AbiType.Abs
-  AbiType.ProofsDec AbiType.ProofsMain AbiType.Run AbiType.ProofsOracle.
+  AbiType.ProofsDec AbiType.ProofsMain AbiType.Run AbiType.ProofsOracle
+  AbiType.ProofsArr AbiType.ProofsDims AbiType.ProofsNormal AbiType.ModelSig AbiType.ProofsSig
+  AbiType.ModelCache AbiType.ProofsCache.
 Import ListNotations.
 
 (* 1. Validation never panics (and the model never runs out of fuel): any bytes as type text, any
@@ -89,6 +91,144 @@ Theorem C13_oracle_decides_grammar :
 Proof. exact recognise_correct. Qed.
 Print Assumptions C13_oracle_decides_grammar.
 
+(* 7. Array dimensions, exactly.  For ANY accepted element text s (any type, any spelling) and ANY bytes
+      between a trailing '[' and ']' (without ']'): the extended text is accepted exactly when the bytes are
+      empty (dynamic array of the element's tree) or the canonical numeral of some k < 2^32 (fixed array of
+      length k).  [no_byte c s]: the byte c does not occur in s. *)
+Theorem C13_dimension_exact :
+  forall (s : bytes) (comps : list param) (tc : tcomp) (body : bytes) (tc' : tcomp),
+    Validate (Param s comps) = Ok tc -> no_byte ch_rbrack body ->
+    (Validate (Param (s ++ ch_lbrack :: body ++ [ch_rbrack]) comps) = Ok tc' <->
+     (body = [] /\ tc' = CDynArr tc) \/
+     (exists k, (k < 2 ^ 32)%N /\ body = dec k /\ tc' = CFixedArr tc k)).
+Proof. exact dimension_exact. Qed.
+Print Assumptions C13_dimension_exact.
+
+(* 7b. The 32-bit limit is sharp at every accepted element text: "[k]" is accepted iff k < 2^32, and from
+      2^32 on an error is reported (no panic, no wrap-around to a small length). *)
+Theorem C13_dimension_limit :
+  forall (s : bytes) (comps : list param) (tc : tcomp) (k : N),
+    Validate (Param s comps) = Ok tc ->
+    let p := Param (s ++ T "[" ++ dec k ++ T "]") comps in
+    ((k < 2 ^ 32)%N -> Validate p = Ok (CFixedArr tc k)) /\
+    ((2 ^ 32 <= k)%N -> exists e, Validate p = Err e /\ e <> EOutOfFuel).
+Proof. exact dimension_limit. Qed.
+Print Assumptions C13_dimension_limit.
+
+(* 7c. A dimension never rescues a refused element text. *)
+Theorem C13_dimension_needs_element :
+  forall s comps body tc', no_byte ch_rbrack body ->
+    Validate (Param (s ++ ch_lbrack :: body ++ [ch_rbrack]) comps) = Ok tc' ->
+    exists tc, Validate (Param s comps) = Ok tc.
+Proof. exact dimension_needs_element. Qed.
+Print Assumptions C13_dimension_needs_element.
+
+(* 8. The normal form through the tuple / components path.  [canonical_param t] (AbiType/ProofsNormal.v) is
+      written from the grammar: canonical text for a leaf, one more dimension for an array, "tuple" with the
+      canonical objects of the members as components.  The normal form computed from the tree of ANY accepted
+      parameter is that object: it depends on the type only, not on the spelling used. *)
+Theorem C13_normal_form_canonical :
+  forall p tc t, Validate p = Ok tc -> ty_of tc = Some t -> normalise tc = Ok (canonical_param t).
+Proof. exact normal_form_canonical. Qed.
+Print Assumptions C13_normal_form_canonical.
+
+(* 8b. Normalisation is idempotent at every depth: the normal form is accepted with the identical tree,
+      normalising what it parses to gives the same object again, and two accepted parameters of the same
+      type have the same normal form. *)
+Theorem C13_normalise_idempotent :
+  forall p tc p', Validate p = Ok tc -> normalise tc = Ok p' ->
+    Validate p' = Ok tc /\
+    (forall tc'', Validate p' = Ok tc'' -> normalise tc'' = Ok p') /\
+    (forall q tcq, Validate q = Ok tcq -> ty_of tcq = ty_of tc -> normalise tcq = Ok p').
+Proof. exact normalise_idempotent. Qed.
+Print Assumptions C13_normalise_idempotent.
+
+(* 8c. The components of the normal form of a tuple are the normal forms of its members, in order. *)
+Theorem C13_normal_form_members :
+  forall p l cs, Validate p = Ok (CTuple cs) -> ty_of (CTuple cs) = Some (TTuple l) ->
+    exists ps, normalise (CTuple cs) = Ok (Param (T "tuple") ps) /\
+               Forall2 (fun c q => normalise c = Ok q) cs ps /\ ps = map canonical_param l.
+Proof. exact normal_form_members. Qed.
+Print Assumptions C13_normal_form_members.
+
+(* 8d. The canonical parameter object of every valid type is accepted as that type and renders as the
+      canonical signature. *)
+Theorem C13_canonical_param_accepted :
+  forall t, valid_type t = true ->
+    exists tc, Validate (canonical_param t) = Ok tc /\ ty_of tc = Some t /\ tc_of t = Some tc /\
+               SignatureString (canonical_param t) = Ok (canonical t).
+Proof. exact canonical_param_accepted. Qed.
+Print Assumptions C13_canonical_param_accepted.
+
+(* 9. Parameter LISTS end to end (AbiType/ModelSig.v: ParameterArray.TypeComponentTree, Entry.Signature).
+      The list view is the parse of the tuple of the parameters ... *)
+Theorem C13_param_array_is_tuple :
+  forall pa, ParameterArrayTree pa = Validate (Param (T "tuple") pa).
+Proof. exact param_array_tree_is_tuple. Qed.
+Print Assumptions C13_param_array_is_tuple.
+
+(* 9b. ... the signature is produced exactly when every input spells a valid type ([members ts inputs]:
+      input i is a spelling of ts_i), and is then the entry's name followed by the canonical spelling of the
+      tuple of those types; otherwise an error is reported; never a panic. *)
+Theorem C13_entry_signature :
+  forall (name : bytes) (inputs : list param),
+    (forall ts, forallb valid_type ts = true -> members ts inputs ->
+       EntrySignature name inputs = Ok (name ++ canonical (TTuple ts))) /\
+    (forall sig, EntrySignature name inputs = Ok sig ->
+       exists ts, forallb valid_type ts = true /\ members ts inputs /\ sig = name ++ canonical (TTuple ts)) /\
+    ((exists e, EntrySignature name inputs = Err e) <->
+     ~ (exists ts, forallb valid_type ts = true /\ members ts inputs)) /\
+    EntrySignature name inputs <> Panic /\ EntrySignature name inputs <> Err EOutOfFuel.
+Proof.
+  intros name inputs.
+  split; [intros ts V M; exact (proj1 (entry_signature_accept name inputs ts V M))|].
+  split; [exact (entry_signature_sound name inputs)|].
+  split; [exact (entry_signature_reject name inputs)|exact (entry_signature_total name inputs)].
+Qed.
+Print Assumptions C13_entry_signature.
+
+(* 10. Definitions that change after use (AbiType/ModelCache.v: a parameter OBJECT = definition + the
+      unexported cache, with ARBITRARY cache contents at every depth, i.e. any history of earlier uses,
+      by-value copies, slice copies).  The parser never looks at a cache ... *)
+Theorem C13_parser_ignores_caches :
+  forall o : pobj, parseObj false o = Validate (erase o).
+Proof. exact parseObj_pure. Qed.
+Print Assumptions C13_parser_ignores_caches.
+
+(* 10b. ... so Validate on an edited object answers for its CURRENT definition, and leaves the cache holding
+      exactly that tree -- or nothing when it refuses (no stale tree after a refused re-validation) ... *)
+Theorem C13_validate_after_edit :
+  forall o : pobj,
+    let (o', r) := ValidateObj o in
+    r = Validate (erase o) /\ erase o' = erase o /\
+    o_parsed o' = match Validate (erase o) with Ok tc => Some tc | _ => None end.
+Proof. exact validate_obj_pure. Qed.
+Print Assumptions C13_validate_after_edit.
+
+(* 10c. ... TypeComponentTree after that Validate serves the current definition, repeatedly; and a list whose
+      top-level parameters were validated again has the list view of the current definitions. *)
+Theorem C13_tree_after_validate :
+  (forall o : pobj,
+     let o1 := fst (ValidateObj o) in
+     snd (TreeObj o1) = Validate (erase o) /\
+     snd (TreeObj (fst (TreeObj o1))) = Validate (erase o) /\
+     erase (fst (TreeObj o1)) = erase o) /\
+  (forall pa : list pobj,
+     ParameterArrayTreeObj (map (fun o => fst (ValidateObj o)) pa) = ParameterArrayTree (map erase pa)).
+Proof. split; [exact tree_after_validate|exact param_array_after_validate]. Qed.
+Print Assumptions C13_tree_after_validate.
+
+(* 10d. What is NOT promised, by witness: without the Validate the old tree is served (the documented
+      behaviour of the API); and a parser that takes the members' cached trees (seed C02-4) answers for a
+      definition the member no longer has. *)
+Theorem C13_stale_refuted :
+  (snd (TreeObj ex_stale) <> Validate (erase ex_stale) /\
+   snd (TreeObj (fst (ValidateObj ex_stale))) = Validate (erase ex_stale)) /\
+  (parseObj true ex_member_edited <> Validate (erase ex_member_edited) /\
+   parseObj false ex_member_edited = Validate (erase ex_member_edited)).
+Proof. split; [exact tree_without_validate_is_stale|exact member_cache_refuted]. Qed.
+Print Assumptions C13_stale_refuted.
+
 (* ---------- non-vacuity ---------- *)
 Definition ex_param : param :=
   Param (T "tuple[2][]") [Param (T "uint") []; Param (T "fixed128x18[3]") [];
@@ -124,3 +264,58 @@ Example C13_nonvacuous_reject :
      "uint65536"; "bytes0"; "bytes33"; "fixed8x81"; "fixed8x0"; "uint+8"; "uint 8"; "Uint8"; "uint8[";
      "uint8[-1]"; "uint8[4294967296]"; "uint8[x]"; "address1"; "string32"; ""; "(uint8)"]%string = true.
 Proof. vm_compute. reflexivity. Qed.
+
+(* dimensions: the limit on a tuple element with an alias spelling inside *)
+Example C13_nonvacuous_dimension :
+  exists tc, Validate ex_param = Ok tc /\
+    Validate (Param (p_type ex_param ++ T "[4294967295]") (p_comps ex_param)) = Ok (CFixedArr tc 4294967295) /\
+    is_err (Validate (Param (p_type ex_param ++ T "[4294967296]") (p_comps ex_param))) = true /\
+    is_err (Validate (Param (p_type ex_param ++ T "[007]") (p_comps ex_param))) = true /\
+    no_byte ch_rbrack (T "4294967295").
+Proof.
+  eexists. split; [vm_compute; reflexivity|]. split; [vm_compute; reflexivity|].
+  split; [vm_compute; reflexivity|]. split; [vm_compute; reflexivity|].
+  repeat (constructor; [reflexivity|]). constructor.
+Qed.
+
+(* normal form: aliases resolved in the components, "junk" components of a leaf dropped; a fixed point *)
+Example C13_nonvacuous_normal_form :
+  canonical_param ex_ty =
+    Param (T "tuple[2][]") [Param (T "uint256") []; Param (T "fixed128x18[3]") [];
+                            Param (T "tuple") [Param (T "bytes32") []; Param (T "string[]") []]] /\
+  canonical_param ex_ty <> ex_param /\
+  exists tc, Validate ex_param = Ok tc /\ normalise tc = Ok (canonical_param ex_ty) /\
+             Validate (canonical_param ex_ty) = Ok tc.
+Proof.
+  split; [vm_compute; reflexivity|]. split; [vm_compute; discriminate|].
+  eexists. split; [vm_compute; reflexivity|]. split; vm_compute; reflexivity.
+Qed.
+
+(* lists: a signature with a tuple input, and a refused one *)
+Example C13_nonvacuous_signature :
+  EntrySignature (T "transfer") [Param (T "address") []; ex_param] =
+    Ok (T "transfer(address,(uint256,fixed128x18[3],(bytes32,string[]))[2][])") /\
+  members [TAddress; ex_ty] [Param (T "address") []; ex_param] /\
+  is_err (EntrySignature (T "transfer") [Param (T "address") []; Param (T "uint008") []]) = true /\
+  EntrySignature (T "f") [] = Ok (T "f()").
+Proof.
+  split; [vm_compute; reflexivity|]. split.
+  - cbn [members]. split; [reflexivity|]. split; [|exact I].
+    apply (proj1 (C13_oracle_decides_grammar ex_param ex_ty)). vm_compute. reflexivity.
+  - split; vm_compute; reflexivity.
+Qed.
+
+(* objects with a history: caches that belong to other definitions at two depths; Validate answers for the
+   current one *)
+Example C13_nonvacuous_edit :
+  exists stale_u256 stale_tuple tc,
+    Validate (Param (T "uint256") []) = Ok stale_u256 /\
+    Validate (Param (T "tuple") [Param (T "bool") []]) = Ok stale_tuple /\
+    let o := PObj (T "tuple[2]") [PObj (T "uint8") [] (Some stale_u256); PObj (T "string") [] None] (Some stale_tuple) in
+    ValidateObj o = (set_parsed o (Some tc), Ok tc) /\
+    tc_string tc = Ok (T "(uint8,string)[2]") /\
+    snd (TreeObj o) = Ok stale_tuple.
+Proof.
+  eexists. eexists. eexists. split; [vm_compute; reflexivity|]. split; [vm_compute; reflexivity|].
+  cbv zeta. split; [vm_compute; reflexivity|]. split; vm_compute; reflexivity.
+Qed.
